@@ -48,6 +48,40 @@ func checkC02(c *Check) {
 	c02Abort(c)
 	c02CommitRecordWriters(c)
 	c02RecordMaps(c)
+	c02ErrorsNotSwallowed(c)
+}
+
+// R8: storing and loading report their failures. For every call in the storage functions whose error result is kept,
+// no success return (and, for the writers, no later durable step) is reachable on the edge where that error is set.
+func c02ErrorsNotSwallowed(c *Check) {
+	c.Rule("R8", "queue storage functions: after a failed file operation, encode, copy or sync the function does not report success (a message is acknowledged / loaded only if every step succeeded)", 12)
+	for _, fn := range [][2]string{{"Queue", "storeNewMessage"}, {"Queue", "updateMetadataOnDisk"}, {"Queue", "openMessage"}, {"Queue", "readMessageMeta"}, {"queueDelivery", "Body"}} {
+		r := c.need("R8", queueRel, fn[0], fn[1])
+		if r == nil {
+			continue
+		}
+		info := r.Info
+		n := 0
+		for _, pt := range r.F.Points() {
+			as, ok := pt.Node().(*ast.AssignStmt)
+			if !ok || len(as.Rhs) != 1 {
+				continue
+			}
+			call, ok := ast.Unparen(as.Rhs[0]).(*ast.CallExpr)
+			if !ok {
+				continue
+			}
+			eo := errVarAssigned(info, as, call)
+			if eo == nil {
+				continue
+			}
+			n++
+			name := exprStr(call.Fun)
+			key := fn[1] + ":" + name + ":" + itoa(n)
+			path, f := r.F.ReachRefined(pt, eo, false, false, r.IsSuccessReturn, nil)
+			c.Hold("R8", key, call.Pos(), !f, "after "+name+" failed "+fn[1]+" can still report success (the message is acknowledged, or handed to delivery, although it is not completely on disk / not completely read): "+r.F.Describe(path))
+		}
+	}
 }
 
 // R2b: the commit record (*.meta) is only ever created or replaced by a rename whose source file was synced in the
